@@ -33,8 +33,13 @@ func (fr *Frame) indexAddr(b *ssa.BasicBlock, x *ssa.IndexAddr, st *State, reach
 	case *types.Slice:
 		fr.safe("index", reach, app("bvult", idx, app("g_slen", base.S)), x.Pos())
 		et := u.Elem()
-		if vc.quant > 0 && vc.qcur != "" && idx == vc.qcur && vc.qoff == "" && !mentions(base.S, vc.qcur) {
-			vc.qoff = app("g_soff", base.S)
+		if vc.quant > 0 {
+			// first slice indexed by a bound variable whose offset is being looked for
+			for _, cand := range vc.qcands {
+				if idx == cand && vc.qoffs[cand] == "" && !mentions(base.S, cand) {
+					vc.qoffs[cand] = app("g_soff", base.S)
+				}
+			}
 		}
 		fr.vals[x] = Val{T: x.Type(), Loc: &Loc{Kind: locElem, Key: vc.elemKey(et), Ref: app("g_sarr", base.S),
 			Idx: vc.def(bvSort(64), "eidx", app("bvadd", app("g_soff", base.S), idx)), CellT: et, T: et}}
@@ -402,40 +407,32 @@ func (vc *VC) appendCore(st *State, et types.Type, s, tlen string, srcAt func(j 
 	newRef := vc.alloc(st)
 	newCap := vc.fresh(bvSort(64), "newcap")
 	vc.assume(fmt.Sprintf("(and (bvsle %s %s) (bvsle %s #x0000ffffffffffff))", n, newCap, newCap))
-	// in-place array: old array with the new elements written behind len
-	// fresh array: copy of the old prefix, then the new elements
-	var inArr, frArr string
+	// One array describes the result in both cases (append in place, or into a
+	// fresh array). A fresh array is laid out like the old one: the new slice keeps
+	// the offset of s (offsets into a fresh array are arbitrary), so an element
+	// keeps its absolute position and facts about old and new contents line up
+	// index by index. In place, the cells outside the appended range are untouched.
+	off := app("g_soff", s)
+	at := func(rel string) string { return fmt.Sprintf("(bvadd %s %s)", off, rel) }
+	arrSort := "(Array (_ BitVec 64) " + es + ")"
+	appArr := vc.fresh(arrSort, "apparr")
+	base := vc.def(bvSort(64), "abase", at(slen))
 	if k, ok := constLen(tlen); ok {
-		inArr = sarr
+		vc.assume(fmt.Sprintf("(forall ((g_j (_ BitVec 64))) (! (=> (and (bvule %s g_j) (bvult g_j %s)) (= (select %s g_j) (select %s g_j))) :pattern ((select %s g_j)) :pattern ((select %s g_j))))",
+			off, base, appArr, sarr, appArr, sarr))
 		for j := 0; j < k; j++ {
 			jj := bvConst(uint64(j), 64)
-			inArr = fmt.Sprintf("(store %s (bvadd (g_soff %s) (bvadd %s %s)) %s)", inArr, s, slen, jj, srcAt(jj))
-		}
-		frArr = vc.fresh("(Array (_ BitVec 64) "+es+")", "apparr")
-		vc.assume(fmt.Sprintf("(forall ((g_j (_ BitVec 64))) (! (=> (bvult g_j %s) (= (select %s g_j) (select %s (bvadd (g_soff %s) g_j)))) :pattern ((select %s g_j))))", slen, frArr, sarr, s, frArr))
-		for j := 0; j < k; j++ {
-			jj := bvConst(uint64(j), 64)
-			vc.assume(fmt.Sprintf("(= (select %s (bvadd %s %s)) %s)", frArr, slen, jj, srcAt(jj)))
+			vc.assume(fmt.Sprintf("(= (select %s (bvadd %s %s)) %s)", appArr, base, jj, srcAt(jj)))
 		}
 	} else {
-		inArr = vc.fresh("(Array (_ BitVec 64) "+es+")", "apparr")
-		base := fmt.Sprintf("(bvadd (g_soff %s) %s)", s, slen)
-		vc.assume(fmt.Sprintf("(forall ((g_j (_ BitVec 64))) (! (= (select %s g_j) (ite (and (bvule %s g_j) (bvult g_j (bvadd (g_soff %s) %s))) %s (select %s g_j))) :pattern ((select %s g_j))))",
-			inArr, base, s, n, srcAt("(bvsub g_j "+base+")"), sarr, inArr))
-		frArr = vc.fresh("(Array (_ BitVec 64) "+es+")", "apparr")
-		vc.assume(fmt.Sprintf("(forall ((g_j (_ BitVec 64))) (! (=> (bvult g_j %s) (= (select %s g_j) (ite (bvult g_j %s) (select %s (bvadd (g_soff %s) g_j)) %s))) :pattern ((select %s g_j))))",
-			n, frArr, slen, sarr, s, srcAt("(bvsub g_j "+slen+")"), frArr))
+		vc.assume(fmt.Sprintf("(forall ((g_j (_ BitVec 64))) (! (=> (and (bvule %s g_j) (bvult g_j %s)) (= (select %s g_j) (ite (bvult g_j %s) (select %s g_j) %s))) :pattern ((select %s g_j))))",
+			off, at(n), appArr, base, sarr, srcAt("(bvsub g_j "+base+")"), appArr))
 	}
-	// write both possibilities
-	stIn := st.clone()
-	vc.writeCell(stIn, key, app("g_sarr", s), inArr)
-	stFr := st.clone()
-	vc.writeCell(stFr, key, newRef, frArr)
-	mg := vc.mergeStates([]string{inplace}, []*State{stIn, stFr})
-	*st = *mg
-	res := sIte(inplace,
-		fmt.Sprintf("(g_mkslice (g_sarr %s) (g_soff %s) %s (g_scap %s))", s, s, n, s),
-		fmt.Sprintf("(g_mkslice %s (_ bv0 64) %s %s)", newRef, n, newCap))
+	vc.assume(fmt.Sprintf("(forall ((g_j (_ BitVec 64))) (! (=> (and %s (not (and (bvule %s g_j) (bvult g_j %s)))) (= (select %s g_j) (select %s g_j))) :pattern ((select %s g_j))))",
+		inplace, base, at(n), appArr, sarr, appArr))
+	target := vc.def(refSort, "apptarget", sIte(inplace, app("g_sarr", s), newRef))
+	vc.writeCell(st, key, target, appArr)
+	res := fmt.Sprintf("(g_mkslice %s %s %s %s)", target, off, n, sIte(inplace, app("g_scap", s), newCap))
 	return vc.def("g_Slice", "app", res)
 }
 
